@@ -83,7 +83,24 @@ def c06(report, rng, tier, findings):
         nv = rng.choice((1, 1, 2))
         cfg = gen.Cfg(n_vars=(nv, nv), n_objs=(1, 4), depth=2, select_all=1.0, empty_domain=0.05, quant='the')
         case = gen.gen_case(rng, cfg, f'c{tries}')
-        if nv == 1 and rng.random() < 0.3:
+        if nv == 1 and rng.random() < 0.15:
+            # VALUE-EQUAL TWINS: the class compares by value (dataclass eq=True) and the domain holds two distinct objects
+            # with equal fields: they are == but two solutions (MultipleSolutionFound when both satisfy)
+            vid, cls, raw = case['vars'][0]
+            objs_ = [(j, c_, {**at, 'ref': ('n',)}) for j, c_, at in case['objs']]
+            j0 = rng.randrange(len(objs_))
+            twin = (len(objs_), objs_[j0][1], dict(objs_[j0][2]))
+            objs_.append(twin)
+            X = ('var', vid)
+            at0 = objs_[j0][2]
+            conds_ = [('cmp', 'eq', ('attr', 'a', X), ('lit', at0['a']))] if rng.random() < 0.6 else \
+                [('cmp', rng.choice(('ge', 'le', 'ne')), ('attr', 'a', X), ('lit', ('i', rng.randint(0, 2))))]
+            case = {**case, 'objs': objs_, 'vars': [(vid, cls, [('o', j) for j in range(len(objs_)) if objs_[j][1] == objs_[j0][1]
+                                                                 or rng.random() < 0.5] )],
+                    'sel': [X], 'cond': conds_, 'entity': True, 'value_eq': True}
+            case['vars'] = [(vid, objs_[j0][1], sorted(set(case['vars'][0][2]) | {('o', j0), ('o', len(objs_) - 1)}))]
+            case.pop('explicit', None)
+        elif nv == 1 and rng.random() < 0.3:
             # the description given in predicate form, the quantifier applied straight to it: the(T(From(d), f=v, ...))
             vid, cls, raw = case['vars'][0]
             kw, eqs = [], []
@@ -108,6 +125,8 @@ def c06(report, rng, tier, findings):
             buckets[b].append(case)
             if case.get('direct'):
                 report.count('quantifier_applied_to_a_predicate_form_term')
+            if case.get('value_eq'):
+                report.count('value_equal_twins_in_the_domain')
     cases = buckets[0] + buckets[1] + buckets[2]
     for b, l in buckets.items():
         report.count(f'solutions_{b}{"+" if b == 2 else ""}', len(l))
@@ -153,6 +172,53 @@ def c19(report, rng, tier, findings):
         elif rng.random() < 0.15:
             gen.apply_truth_operand_template(rng, case)
             report.count('one_attribute_as_condition_and_as_operand')
+        elif rng.random() < 0.15:
+            # a USER PREDICATE used as a VALUE: val_b(x) == k (decorated function or Predicate subclass; its output - often
+            # falsy - is an operand / a membership item / a selected output, not a condition); the explicit twin reads x.b
+            v0 = case['vars'][0][0]
+            X = ('var', v0)
+            f_ = rng.choice('ab')
+            kind_ = rng.choice(('fnv', 'fnv', 'fnvc'))
+            fv, tw = (kind_, 'val_' + f_, X), ('attr', f_, X)
+            lit_ = ('lit', rng.choice(gen.FALSY + [('i', 0), ('i', 1), ('i', 2)]))
+
+            def mk(t_):
+                c_ = ('cmp', rng_op, t_, lit_) if not swap_ else ('cmp', rng_op, lit_, t_)
+                return ('not', c_) if neg_ else c_
+            rng_op, swap_, neg_ = rng.choice(('eq', 'ne')), rng.random() < 0.3, rng.random() < 0.25
+            g_ = gen.CondGen(rng, cfg, [v[0] for v in case['vars']])
+            other = g_.atom()
+            form = rng.choice(('alone', 'and1', 'and2', 'or'))
+            wrap = {'alone': lambda c_: c_, 'and1': lambda c_: ('and', other, c_), 'and2': lambda c_: ('and', c_, other),
+                    'or': lambda c_: ('or', c_, other)}[form]
+            case['cond'] = [wrap(mk(fv))]
+            case['sel'] = [t for t in case['sel'] if t[0] == 'var'] or [X]
+            case['entity'] = len(case['sel']) == 1
+            case['explicit'] = {**case, 'cond': [wrap(mk(tw))]}
+            report.count('user_predicate_used_as_a_value')
+        elif rng.random() < 0.2:
+            # CHAINS through an attribute VALUE (often falsy: 0, '', [], ()): an attribute of the value (x.a.real), a
+            # method of the value (x.items.count(k), x.s.upper()) - as comparison operand, membership item, selected output
+            v0 = case['vars'][0][0]
+            X = ('var', v0)
+            chains = [('attr', 'real', ('attr', 'a', X)),
+                      ('call', 'count', (('i', rng.randint(0, 2)),), ('attr', 'items', X)),
+                      ('call', 'count', (('i', 0),), ('attr', 't', X)),
+                      ('call', 'upper', (), ('attr', 's', X))]
+            ch = rng.choice(chains)
+            if ch[1] == 'upper':
+                lit_ = ('lit', rng.choice([('s',), ('s', 'AB'), ('s', 'B'), ('s', 'ABC')]))
+                cmp_ = ('cmp', rng.choice(('eq', 'ne')), ch, lit_)
+            else:
+                cmp_ = ('cmp', rng.choice(('eq', 'ne', 'ge', 'lt')), ch, ('lit', ('i', rng.randint(0, 2))))
+                if rng.random() < 0.3:
+                    cmp_ = ('in', ch, ('lit', ('l', ('i', 0), ('i', 2))))
+            g_ = gen.CondGen(rng, cfg, [v[0] for v in case['vars']])
+            case['cond'] = [rng.choice([cmp_, ('and', g_.atom(), cmp_), ('or', cmp_, g_.atom()), ('not', cmp_)])]
+            if rng.random() < 0.4:
+                case['sel'] = [ch] + [t for t in case['sel'] if t[0] == 'var'][:1]
+                case['entity'] = len(case['sel']) == 1
+            report.count('chain_through_an_attribute_value')
         cases.append(case)
     report.rule = ("the generators of C01/C02 on datasets where 60% of the objects carry a falsy value (0, '', None, False, [], ()) "
                    "in the attribute used as a value and ints are drawn from 0..2: falsy values as comparison operands, membership "
@@ -643,8 +709,9 @@ def c09(report, rng, tier, findings):
 
 # ------------------------------------------------------------------------------------------- C16 / C17
 
-def gen_nested_case(rng, cid, scalars=True):
-    """Parents with inner collections of different lengths (empty, overlapping, scalar, falsy elements)."""
+def gen_nested_case(rng, cid, scalars=True, container_elements=False):
+    """Parents with inner collections of different lengths (empty, overlapping, scalar, falsy elements).
+    `container_elements`: some ELEMENTS are containers themselves (pairs, empty tuples, lists): UNNEST opens one level."""
     n = rng.randint(1, 5)
     objs = []
     pool = [('i', k) for k in range(0, 5)]
@@ -661,6 +728,12 @@ def gen_nested_case(rng, cid, scalars=True):
                 items = (kind_,) + tuple(rng.sample(pool, k))     # no repeated element inside one collection
             else:
                 items = (kind_,) + tuple(rng.choice(pool) for _ in range(k))
+        if container_elements and items[0] in ('l', 't') and len(items) > 1 and rng.random() < 0.7:
+            els = list(items[1:])
+            for j in range(len(els)):
+                if rng.random() < 0.5:
+                    els[j] = rng.choice([('t', ('i', 1), ('i', 2)), ('t',), ('l', ('i', 3)), ('t', els[j], els[j])])
+            items = (items[0],) + tuple(els)
         objs.append((i, 'A', {'a': ('i', rng.randint(0, 3)), 'b': ('i', rng.randint(0, 2)), 's': ('s', 'ab'),
                               'flag': ('b', rng.randint(0, 1)), 'items': items,
                               't': ('t', ('i', 0), ('i', 1)), 'ref': ('o', rng.randrange(n))}))
@@ -674,7 +747,8 @@ def c16(report, rng, tier, findings):
     n = n_cases(tier, 300, 4000)
     cases = []
     for i in range(n):
-        objs = gen_nested_case(rng, i)
+        cont_el = rng.random() < 0.12
+        objs = gen_nested_case(rng, i, container_elements=cont_el)
         raw = [('o', j) for j in range(len(objs))]
         if rng.random() < 0.3:
             rng.shuffle(raw)
@@ -702,9 +776,13 @@ def c16(report, rng, tier, findings):
             conds = [('and', pc, ec)]
         else:
             conds = [('or', ec, ('cmp', 'eq', E, ('lit', ('i', rng.randint(0, 4)))))]
+        if cont_el:
+            # elements that are containers themselves are not ordered against numbers: no condition, or one on the parent
+            conds = rng.choice([[], [pc]])
+            report.count('elements_that_are_containers')
         case = {'id': f'c{i}', 'classes': [('A', '-')], 'objs': objs, 'vars': [(0, 'A', raw)], 'quant': 'an',
                 'sel': sel, 'cond': conds or None, 'entity': len(sel) == 1}
-        if rng.random() < 0.3:
+        if rng.random() < 0.3 and not cont_el:
             # ANOTHER variable joined with the flattened element: in each row it keeps the binding that goes with the element
             npar = len(objs)
             extra = rng.randint(1, 3)
@@ -964,7 +1042,8 @@ def c10(report, rng, tier, findings):
                      'fa_mode': mode})
         # the universal argument may be an EXPRESSION over the universal variable (its values, falsy ones
         # included, are values, not conditions); it quantifies over the same objects
-        shape = rng.choice(('single',) * 6 + ('two_same', 'two_same', 'nested', 'nested', 'fa_first', 'free_after'))
+        shape = rng.choice(('single',) * 6 + ('two_same', 'two_same', 'nested', 'nested', 'fa_first', 'free_after',
+                                              'flat_in_fa', 'flat_in_fa'))
         case['fa_shape'] = shape
         if shape == 'single':
             r_u = rng.random()
@@ -1003,6 +1082,24 @@ def c10(report, rng, tier, findings):
                 inner = g3.cond(rng.randint(0, 1))
                 case['foralls'] = [([u, v], [('and', body, inner) if rng.random() < 0.5 else inner])]
                 case['fafirst'] = rng.random() < 0.5
+            elif shape == 'flat_in_fa':
+                # a FLATTENED collection inside the for_all's condition: several elements of one free object may satisfy
+                # it for one universal value (the condition then yields the same kept binding more than once), written
+                # first or alone so that the free variable is still unbound
+                x0 = free_ids[0]
+                el = ('flat', 150, ('attr', 'items', ('var', x0)))
+                opx = rng.choice(('ge', 'le', 'ne', 'eq', 'gt'))
+                fbody = ('cmp', opx, el, ('attr', 'a', ('var', u)))
+                if rng.random() < 0.3:
+                    fbody = ('cmp', MIRROR_OP[opx], ('attr', 'a', ('var', u)), el)
+                if rng.random() < 0.3:
+                    fbody = ('and', gen.CondGen(rng, cfg, [x0]).atom(), fbody)
+                case['foralls'] = [([u], [fbody])]
+                case['fafirst'] = True
+                case['sel'] = [('var', x0)]
+                case['entity'] = True
+                case['vars'] = [v for v in case['vars'] if v[0] in (x0, u)]
+                case['cond'] = [gen.CondGen(rng, cfg, [x0]).cond(rng.randint(0, 1))] if rng.random() < 0.4 else None
             elif shape == 'fa_first':
                 case['foralls'] = [([u], [body])]
                 case['fafirst'] = True
@@ -1039,7 +1136,8 @@ def c10(report, rng, tier, findings):
         "non-empty universal domain",
         "the theorem covers conditions whose disjunctions mention the same variables on both sides (every true output binds "
         "all variables of the condition); other shapes: known finding C10-F1",
-        "nested for_alls and conjuncts that mention a universal variable free: model + correspondence, no theorem",
+        "a conjunct that mentions a universal variable free, and a flattened collection inside a for_all's condition (some "
+        "element must satisfy it for every universal value): model + correspondence, no theorem",
         "caching on: covered by correspondence, subject to C05-F1 / C05-F3"]
 
 
@@ -1123,6 +1221,29 @@ def c13(report, rng, tier, findings):
         case['pform'] = pform
         case['explicit'] = explicit
         case['nested'] = nested
+        if len(base['vars']) == 1 and not case.get('share_from') and not nested and rng.random() < 0.2:
+            # the domain is supplied by ANOTHER VARIABLE, or by a sub-query, that ranges over the ROOT class (a broader
+            # type): only its members of the variable's own type count; the variable is written with let(T, domain=..)
+            # or T(From(..)) without fields
+            vid0, cls0, raw0 = base['vars'][0]
+            root = base['classes'][0][0]
+            zc = [] if rng.random() < 0.4 else [('cmp', rng.choice(('ge', 'le', 'ne')), ('attr', 'a', ('var', 60 + vid0)),
+                                                  ('lit', ('i', rng.randint(0, 2))))]
+            case = dict(base)
+            case['cond'] = list(extra) or None
+            case['domq'] = {vid0: zc}
+            case['domq_cls'] = {vid0: root}
+            case['domq_form'] = rng.choice(('let', 'from'))
+            case['nested'] = True                 # no tree claim: the explicit twin has the conditions inline
+            case['pform'] = {}
+            case['explicit'] = {**base, 'cond': ([subst_var(c, 60 + vid0, vid0) for c in zc] + list(extra)) or None}
+            report.count('domain_supplied_by_a_' + ('variable' if not zc else 'subquery') + '_of_a_broader_type')
+            cases.append(case)
+            continue
+        if not case.get('share_from') and rng.random() < 0.4:
+            # the supplied collection is a tuple, a generator expression or a plain iterator (one-shot, not sized)
+            case['dom_kind'] = rng.choice(('tuple', 'gen', 'gen', 'iter'))
+            report.count('domain_given_as_' + case['dom_kind'])
         if len(base['vars']) == 1 and not extra and base['sel'] == [('var', base['vars'][0][0])] and rng.random() < 0.5:
             case['direct'] = True               # an(T(From(d), ...)) rather than an(entity(T(From(d), ...)))
             vid0 = base['vars'][0][0]
